@@ -399,6 +399,8 @@ func c07Reply(out *vh.Out, c *vdmarc.Case, seedOK bool) {
 						verdict = string(dr.Value)
 					}
 				}
+			} else {
+				out.Stat("reply.recorded-results-unparsable")
 			}
 		}
 	}
